@@ -1,0 +1,24 @@
+//go:build verif
+
+// Contracts for package binary (comment-only; read by /verif/vf, see /verif/DESIGN.md).
+
+package binary
+
+// rdContent(r) / rdPos(r): ghost content and position of a reader; rdTee(r): hash fed by the bytes read (0: none)
+
+//@ func ReadNullTerminatedString
+//@   returns s, err
+//@   modifies $rdpos, $hashdata
+//@   requires [reader] r != nil && 0 <= rdPos(r) && rdPos(r) <= len(rdContent(r))
+//@   ensures [ok] {C19} err == nil
+//@   ensures [result] {C01,C05,C19} s == bsub(rdContent(r), old(rdPos(r)), indexOfByte(rdContent(r), 0, old(rdPos(r))))
+//@   ensures [pos] {C01,C05} rdPos(r) == ite(indexOfByte(rdContent(r), 0, old(rdPos(r))) < len(rdContent(r)), indexOfByte(rdContent(r), 0, old(rdPos(r))) + 1, len(rdContent(r)))
+//@   ensures [tee] {C01,C19} rdTee(r) != 0 ==> hashData(rdTee(r)) == old(hashData(rdTee(r))) + bsub(rdContent(r), old(rdPos(r)), rdPos(r))
+//@   ensures [others] forall q io.Reader :: q != r ==> rdPos(q) == old(rdPos(q))
+//@   loop 0:
+//@     invariant old(rdPos(r)) <= rdPos(r) && rdPos(r) <= len(rdContent(r))
+//@     invariant string(str) == bsub(rdContent(r), old(rdPos(r)), rdPos(r))
+//@     invariant forall i int :: old(rdPos(r)) <= i && i < rdPos(r) ==> rdContent(r)[i] != 0
+//@     invariant rdTee(r) != 0 ==> hashData(rdTee(r)) == old(hashData(rdTee(r))) + bsub(rdContent(r), old(rdPos(r)), rdPos(r))
+//@     invariant forall q io.Reader :: q != r ==> rdPos(q) == old(rdPos(q))
+//@     decreases len(rdContent(r)) - rdPos(r)
